@@ -33,7 +33,7 @@ for od in sorted(glob.glob(os.path.join(rd, "out_*"))):
             continue
         title = open(notes).readline()
         idea = title.split(":")[-1] if ":" in title else title.split("--")[-1]
-        sid = "%s-r5-%s" % (prop, slug(idea) or ("m" + k))
+        sid = "%s-r%s-%s" % (prop, os.environ.get("ROUND", "5"), slug(idea) or ("m" + k))
         jobs.append((od, k, sid, prop, mark))
 
 def run(job):
